@@ -95,4 +95,19 @@ theorem buildLog_is_translated (w : World) (h : Nat) (mtype : String) (fields : 
 theorem start_log_shape : Finish.startStmts.getLast? = some .write ∧ W.serializerStart ∈ Finish.startStmts ∧
     Finish.logStmts.getLast? = some .writePop ∧ W.popLogger ∈ Finish.logStmts := by decide
 
+/-- **Where a new action or message goes** (C02 / C04 anchors): the bodies of `start_action`, `startTask`, `log_message` and
+`Action.child` as the source has them now are the ones the core model's `World.startAction`, `World.logMessage` / `currentOrFresh`
+and `World.childRec` transcribe: the parent is the current action at creation time, no current action means a new task with a
+fresh `uuid4()` at level `[]`, a child takes the parent's uuid and its next position. -/
+theorem placement_shapes :
+    Finish.startActionBody = ["parent = current_action()",
+      "if parent is None:\n    return startTask(logger, action_type, _serializers, **fields)\nelse:\n    action = parent.child(logger, action_type, _serializers)\n    action._start(fields)\n    return action"] ∧
+    Finish.startTaskBody = ["action = Action(logger, str(uuid4()), TaskLevel(level=[]), action_type, _serializers)", "action._start(fields)", "return action"] ∧
+    Finish.logMessageBody = ["action = current_action()",
+      "if action is None:\n    logger = fields.pop('__eliot_logger__', None)\n    action = Action(logger, str(uuid4()), TaskLevel(level=[]), '')",
+      "action.log(message_type, **fields)"] ∧
+    Finish.childBody = ["newLevel = self._nextTaskLevel()",
+      "return self.__class__(logger, self._identification[TASK_UUID_FIELD], newLevel, action_type, serializers)"] :=
+  ⟨rfl, rfl, rfl, rfl⟩
+
 end Sys.C03Fin
